@@ -130,6 +130,8 @@ def run(rep, tier):
     fbl14 = facts.FactBase(['src/uscxml/plugins/datamodel/lua/LuaDataModel.cpp'])
     C16.nil_is_null(rep, fbl14, 'R14.12')
     C16.bare_words(rep, fbl14, 'R14.12')
+    from . import C08
+    C08.restore_replaces(rep, fb, 'R14.14')
     # ---- R14.13 the session identity is part of the state
     rep.rule('R14.13', 'a resumed session is the session that was saved: serialize() writes the session id, deserialize() adopts it before init() hands it to the data model and the i/o processors (the origin of queued events, a stored _sessionid or location would name a session that no longer exists)')
     from .. import cfg as cfgm13
